@@ -1,6 +1,7 @@
 """C09 — running programs is compositional and leaves user programs untouched."""
 import copy
 import glob
+import math
 import json
 import os
 import warnings
@@ -28,7 +29,10 @@ RULE = ("correspondence: sessions of 1-5 run/reset calls over 2-4 user programs 
         "backend; search: program pairs / sessions on the gaussian, fock and bosonic backends.  A case is "
         "non-trivial when the session contains a second segment or a second call after a run, or a reset "
         "(correspondence); when the second segment is non-empty, or an exception path / shared op / daggered "
-        "decomposable gate is involved (search)")
+        "decomposable gate is involved (search); 60% of the untouched-program cases contain 2-3 adjacent commands of one "
+        "mergeable family (gates incl. daggered, Loss/ThermalLoss/Passive channels, preparations, Interferometers, one op "
+        "object used twice) and are put through Program.optimize, compile(optimize=True) and run(compile_options="
+        "{'optimize': True}); a sweep covers every family x backend x optimising entry point on every run")
 TRUSTED_BASE = [
     "Coq 8.16.1 kernel; vm_compute for evaluating the model on cases and for the three _refuted witnesses",
     "hand-written model coq/C09/Model.v of BaseEngine._run / reset / LocalEngine._run_program / Operation.apply / "
@@ -632,6 +636,10 @@ def _s_param(p, prog):
             return prog.params(p["f"])
         if "re" in p:
             return complex(p["re"], p["im"])
+        if "mat" in p:
+            return np.array([[complex(x[0], x[1]) for x in row] for row in p["mat"]])
+        if "rmat" in p:
+            return np.array(p["rmat"], dtype=float)
     return p
 
 
@@ -728,6 +736,86 @@ def s_random_cmds(rng, n, k, backend, seg):
             c[1] = [x if not isinstance(x, float) else max(-0.5, min(0.5, x)) if c[0] in ("Sgate", "S2gate", "Pgate", "CXgate", "CZgate", "Squeezed") else x for x in c[1]]
         out.append(c + [{"oid": "s%d_%d" % (seg, i)}])
     return out
+
+
+def _unitary2(rng):
+    th, a, b = rng.uniform(0.2, 1.3), rng.uniform(-3, 3), rng.uniform(-3, 3)
+    c, sn = math.cos(th), math.sin(th)
+    u = [[complex(c * math.cos(a), c * math.sin(a)), complex(-sn * math.cos(b), -sn * math.sin(b))],
+         [complex(sn * math.cos(-b), sn * math.sin(-b)), complex(c * math.cos(-a), c * math.sin(-a))]]
+    return {"mat": [[[round(z.real, 12), round(z.imag, 12)] for z in row] for row in u]}
+
+
+MERGE_GATES_1 = {"Dgate": 1, "Xgate": 0, "Zgate": 0, "Sgate": 1, "Rgate": 0, "Pgate": 0}
+MERGE_GATES_2 = {"BSgate": 1, "MZgate": 1, "S2gate": 1, "CXgate": 0, "CZgate": 0}
+
+
+def merge_families(n, backend):
+    fams = ["gate1", "loss", "prep"]
+    if backend != "fock":
+        fams.append("thermal")      # not a primitive of the fock compiler
+    if n >= 2:
+        fams.append("gate2")
+        if backend != "bosonic":
+            fams.append("interferometer")      # not decomposed by the bosonic compiler
+    if backend == "gaussian":
+        fams.append("passive")
+    if backend == "fock":
+        fams.append("kerr")
+    return fams
+
+
+def merge_group(rng, n, backend, tag, fam=None):
+    """2-3 adjacent commands of one mergeable family on the same modes, with parameters that do
+    not cancel: gates (also daggered, also one op object used twice), channels, preparations,
+    Interferometers.  Returns the list of commands and the family name."""
+    fams = merge_families(n, backend) + ["gate1"]
+    fam = fam or rng.choice(fams)
+    k = rng.choice([2, 2, 2, 3])
+    vals = rng.sample([0.11, 0.23, 0.37, 0.52, -0.19, -0.31, 0.44, -0.47], k)
+    small = backend == "fock"
+    out = []
+    if fam in ("gate1", "gate2", "kerr"):
+        table = MERGE_GATES_1 if fam == "gate1" else MERGE_GATES_2 if fam == "gate2" else {"Kgate": 0}
+        name = rng.choice(sorted(table))
+        modes = rng.sample(range(n), 2 if fam == "gate2" else 1)
+        rest = [rng.choice([0.0, 0.3, -0.7])] * table[name]
+        for i, v in enumerate(vals):
+            out.append([name, [v * (0.5 if small else 1.0)] + rest, list(modes), rng.random() < 0.4, {"oid": "%s_%d" % (tag, i)}])
+    elif fam == "loss":
+        m = [rng.randrange(n)]
+        for i, v in enumerate(vals):
+            out.append(["LossChannel", [round(0.5 + abs(v), 3)], m, False, {"oid": "%s_%d" % (tag, i)}])
+    elif fam == "thermal":
+        m = [rng.randrange(n)]
+        nbar = rng.choice([0.0, 0.4, 1.2])
+        for i, v in enumerate(vals):
+            out.append(["ThermalLossChannel", [round(0.5 + abs(v), 3), nbar], m, False, {"oid": "%s_%d" % (tag, i)}])
+    elif fam == "passive":
+        d = rng.choice([1, 2]) if n >= 2 else 1
+        modes = rng.sample(range(n), d)
+        for i, v in enumerate(vals):
+            if d == 1:
+                T = [[round(0.5 + abs(v), 3)]]
+            else:
+                T = [[round(0.5 + abs(v), 3), round(v * 0.3, 3)], [round(-v * 0.2, 3), round(0.9 - abs(v), 3)]]
+            out.append(["PassiveChannel", [{"rmat": T}], list(modes), False, {"oid": "%s_%d" % (tag, i)}])
+    elif fam == "prep":
+        m = [rng.randrange(n)]
+        names = ["Coherent", "Squeezed", "Thermal", "Vacuum", "DisplacedSqueezed"] + (["Fock"] if backend == "fock" else [])
+        for i, v in enumerate(vals):
+            nm = rng.choice(names)
+            ps = {"Coherent": [abs(v), 0.4], "Squeezed": [v * 0.8, 0.2], "Thermal": [abs(v)], "Vacuum": [],
+                  "DisplacedSqueezed": [abs(v), 0.1, v * 0.5, 0.3], "Fock": [1]}[nm]
+            out.append([nm, ps, m, False, {"oid": "%s_%d" % (tag, i)}])
+    else:
+        modes = rng.sample(range(n), 2)
+        for i in range(k):
+            out.append(["Interferometer", [_unitary2(rng)], list(modes), False, {"oid": "%s_%d" % (tag, i)}])
+    if fam not in ("prep", "interferometer") and rng.random() < 0.3:
+        # the very same op object applied twice (for gates possibly once inverted)
+        out[1] = [out[0][0], out[0][1], out[0][2], out[1][3], {"same_as": out[0][4]["oid"]}]
+    return out, fam
 
 
 def ff_cmd(rng, n, k, dagger=None):
@@ -1000,11 +1088,22 @@ def gen_untouched(rng, backend):
     elif r < 0.38:
         cm.append(["Dgate", [{"re": 0.3, "im": 0.2}, 0.0], [0], rng.random() < 0.7, {}])   # complex r: _apply raises ValueError
         fail = "complex"
-    co = rng.choice([None, None, {"optimize": False}, {"warn_connected": False}, {"optimize": True}])
-    if co and co.get("optimize") and ("ff" in feat or fail == "unmeasured"):
+    symbolic = "ff" in feat or fail == "unmeasured"
+    if rng.random() < 0.6:
+        # keep each group adjacent, and before any measurement so that it acts on a live state
+        limit = next((i for i, c in enumerate(cm) if c[0].startswith("Measure")), len(cm))
+        anchors = sorted((rng.randint(0, limit) for _ in range(rng.choice([1, 1, 2]))), reverse=True)
+        for g, pos in enumerate(anchors):
+            grp, fam = merge_group(rng, n, backend, "mg%d" % g)
+            cm[pos:pos] = grp
+            feat.add("merge:" + fam)
+    co = rng.choice([None, {"optimize": False}, {"warn_connected": False}, {"optimize": True}, {"optimize": True}])
+    if co and co.get("optimize") and symbolic:
         co = {"optimize": False}     # optimising circuits with measured parameters is C03's subject (known defect there)
     return {"n": n, "backend": backend, "cmds": cm, "args": args, "fail": fail, "compile_options": co,
-            "precompile": rng.random() < 0.3, "sibling": "ff" in feat and rng.random() < 0.35, "feat": sorted(feat)}
+            "precompile": rng.random() < 0.4, "precompile_optimize": (not symbolic) and rng.random() < 0.6,
+            "call_optimize": (not symbolic) and rng.random() < 0.4,
+            "sibling": "ff" in feat and rng.random() < 0.35, "feat": sorted(feat)}
 
 
 def untouched_verdicts(spec):
@@ -1013,13 +1112,26 @@ def untouched_verdicts(spec):
     out = []
     P = s_build(sf.Program(n), spec["cmds"], {}, 0)
     fp0 = fingerprint(P)
-    if spec["precompile"]:
+    if spec.get("call_optimize"):
         try:
-            c1 = P.compile(compiler=backend)
+            o1 = P.optimize()
             d = fp_diff(fp0, fingerprint(P))
             if d:
-                out.append(("untouched:compile:" + d, "Program.compile changed the user's program (%s)" % d))
-            c2 = P.compile(compiler=backend)
+                out.append(("untouched:optimize:" + d, "Program.optimize changed the user's program (%s)" % d))
+            o2 = P.optimize()
+            d = fp_diff(fingerprint(o1), fingerprint(o2))
+            if d:
+                out.append(("optimize:twice-differs:" + d, "optimising the same program twice gives different circuits (%s)" % d))
+        except Exception as e:  # noqa: BLE001
+            out.append(("optimize:raises:" + type(e).__name__, "Program.optimize raised %r" % e))
+    if spec["precompile"]:
+        copts = {"optimize": True} if spec.get("precompile_optimize") else {}
+        try:
+            c1 = P.compile(compiler=backend, **copts)
+            d = fp_diff(fp0, fingerprint(P))
+            if d:
+                out.append(("untouched:compile:" + d, "Program.compile(%s) changed the user's program (%s)" % (copts, d)))
+            c2 = P.compile(compiler=backend, **copts)
             d = fp_diff(fingerprint(c1), fingerprint(c2))
             if d and d not in ("op.cmd", "op.op", "op.plist"):
                 out.append(("compile:twice-differs:" + d, "compiling the same program twice gives different circuits (%s)" % d))
@@ -1027,7 +1139,8 @@ def untouched_verdicts(spec):
             out.append(("compile:raises:" + type(e).__name__, "Program.compile raised %r" % e))
             c1 = None
         if not spec["fail"] and c1 is not None:
-            x = attempt(lambda: new_engine(backend).run(P, args=dict(spec["args"])), backend)
+            # same compile options on both sides: merged and unmerged gates differ by truncation error on the fock backend
+            x = attempt(lambda: new_engine(backend).run(P, args=dict(spec["args"]), compile_options=dict(copts)), backend)
             y = attempt(lambda: new_engine(backend).run(c1, args=dict(spec["args"])), backend)
             if x[0] == "ok" and not same_sig(x, y, tol):
                 sig = "compile:run-of-compiled-program-raises:" + y[1] if y[0] == "err" else "compile:run-of-compiled-program-differs"
@@ -1182,18 +1295,23 @@ def search(ctx):
                  bucket="compose:%s:%s" % (spec["backend"], "+".join(spec["feat"]) or "plain"))
         if v:
             ctx.counterexample(v[0], v[1], d)
+    merge_sweep(ctx)
     for _ in range(ctx.budget(30, 1200)):
         spec = gen_reset(rng, pick())
         v = reset_verdict(spec)
         ctx.case({"reset": spec}, nontrivial=True, bucket="reset:" + spec["backend"])
         if v:
             ctx.counterexample(v[0], v[1], {"check": "reset", "spec": spec})
-    for _ in range(ctx.budget(60, 2400)):
+    for _ in range(ctx.budget(100, 2400)):
         spec = gen_untouched(rng, pick())
         vs, _ = untouched_verdicts(spec)
         ctx.case({"untouched": spec}, nontrivial=bool(spec["fail"] or spec["precompile"] or spec["sibling"] or
                                                         any("same_as" in c[4] or c[3] for c in spec["cmds"])),
                  bucket="untouched:%s:%s" % (spec["backend"], spec["fail"] or "ok"))
+        for ft in spec["feat"]:
+            if ft.startswith("merge:"):
+                ctx.hist["untouched:" + ft + (":optimized" if (spec.get("call_optimize") or (spec["precompile"] and spec.get("precompile_optimize")) or (spec["compile_options"] or {}).get("optimize")) else "")] = \
+                    ctx.hist.get("untouched:" + ft + (":optimized" if (spec.get("call_optimize") or (spec["precompile"] and spec.get("precompile_optimize")) or (spec["compile_options"] or {}).get("optimize")) else ""), 0) + 1
         for sig, text in vs:
             ctx.counterexample(sig, text, {"check": "untouched", "spec": spec})
     for k in range(ctx.budget(3, 40)):
@@ -1208,6 +1326,24 @@ def search(ctx):
         ctx.case({"tdm": spec}, nontrivial=True, bucket="tdm")
         if v:
             ctx.counterexample(v[0], v[1], {"check": "tdm", "spec": spec, "seed": ctx.seed + k})
+
+
+def merge_sweep(ctx):
+    """Every mergeable family on every backend that accepts it, through every optimising entry point
+    (Program.optimize, compile(optimize=True), run(compile_options={'optimize': True}))."""
+    rng = ctx.rng
+    for backend in BACKENDS:
+        n = 2
+        for fam in merge_families(n, backend):
+            grp, _ = merge_group(rng, n, backend, "mg0", fam=fam)
+            cm = [["Squeezed", [0.3, 0.2], [0], False, {"oid": "s0_0"}], ["Coherent", [0.4, 0.1], [1], False, {"oid": "s0_1"}],
+                  ["BSgate", [0.6, 0.2], [0, 1], False, {"oid": "s0_2"}]] + grp + [["Rgate", [0.3], [0], False, {"oid": "s0_3"}]]
+            spec = {"n": n, "backend": backend, "cmds": cm, "args": {}, "fail": None, "compile_options": {"optimize": True},
+                    "precompile": True, "precompile_optimize": True, "call_optimize": True, "sibling": False, "feat": ["merge:" + fam]}
+            vs, _ = untouched_verdicts(spec)
+            ctx.case({"untouched": spec}, nontrivial=True, bucket="merge-sweep:%s:%s" % (backend, fam))
+            for sig, text in vs:
+                ctx.counterexample(sig, text, {"check": "untouched", "spec": spec})
 
 
 def search_eval(d):
